@@ -111,7 +111,7 @@ def run(module: str, cfg: Path, *, workers: int | str = 16, timeout: int = 900, 
         raise MachineryError(f"no such module {tla}")
     md = metadir or workdir("tlcmeta")
     cmd = ["java", "-XX:+UseParallelGC", "-Xmx12g", "-Dtlc2.tool.fp.FPSet.impl=tlc2.tool.fp.OffHeapDiskFPSet"]
-    cmd = ["java", "-XX:+UseParallelGC", "-Xmx12g"]
+    cmd = ["java", "-XX:+UseParallelGC", "-Xmx12g", "-Xss64m"]
     if dfs_queue:
         cmd.append("-Dtlc2.tool.queue.IStateQueue=StateDeque")
     cmd += ["-cp", JAR, "tlc2.TLC", "-workers", str(workers), "-metadir", str(md), "-noGenerateSpecTE",
@@ -140,7 +140,7 @@ def run(module: str, cfg: Path, *, workers: int | str = 16, timeout: int = 900, 
     if metadir is None:
         shutil.rmtree(md, ignore_errors=True)
     out = p.stdout + ("\n" + p.stderr if p.stderr.strip() else "")
-    r = TLCResult(module=module, cfg=cfg.read_text(), stdout=out, wall_s=wall, cmd=" ".join(cmd[5:]))
+    r = TLCResult(module=module, cfg=cfg.read_text(), stdout=out, wall_s=wall, cmd=" ".join(cmd[6:]))
     m = _RE_STATS.findall(out)
     if m:
         r.generated, r.distinct = int(m[-1][0]), int(m[-1][1])
@@ -166,7 +166,8 @@ def run(module: str, cfg: Path, *, workers: int | str = 16, timeout: int = 900, 
     r.printed = parse_printed(out)
     if not r.ok and r.violated is None:
         # parse / semantic / runtime error
-        raise MachineryError(f"TLC failed on {module} (rc={p.returncode}):\n" + out[-3000:])
+        first = out.find("Error:")
+        raise MachineryError(f"TLC failed on {module} (rc={p.returncode}):\n" + (out[first:first + 1500] if first >= 0 else "") + "\n...\n" + out[-1500:])
     if r.violated and not expect_violation:
         pass
     return r
